@@ -30,17 +30,14 @@ pub fn memory(num_regions: u32, padding: u32) -> Verdict {
     Some(padding == 0 && (1..=32).contains(&num_regions))
 }
 
-/// a range [base, base+len) "does not wrap": base+len representable.  base+len == 2^64 exactly
-/// (range ends at the very top of the address space) is left open.
+/// a range [base, base+len) "does not wrap" in 64 bits: the 64-bit sum base+len does not overflow, i.e. the
+/// exclusive end is representable.  base+len == 2^64 exactly makes the 64-bit addition wrap to 0 (every
+/// consumer of these messages computes that end), so it counts as a wrap.  (An earlier version left this one
+/// point open as "spec-silent"; two independently written breaking changes - validators accepting exactly
+/// that point, one of which makes the daemon's address translation overflow - showed the oracle was too weak.)
 fn range(base: u64, len: u64) -> Verdict {
     let end = base as u128 + len as u128;
-    if end < TWO64 {
-        Some(true)
-    } else if end == TWO64 {
-        None
-    } else {
-        Some(false)
-    }
+    Some(end < TWO64)
 }
 
 fn all(vs: &[Verdict]) -> Verdict {
